@@ -906,6 +906,11 @@ class TT():
             torch.tensor: the values of the tensor
 
         """
+        if not tn.is_tensor(indices):
+            indices = tn.tensor(indices)
+        if indices.dim() != 2 or indices.shape[1] != len(self.__N):
+            raise InvalidArguments(
+                'The index matrix must have one column per mode.')
         result = apply_mask(self.cores, self.__R, indices)
         return result
 
